@@ -276,7 +276,7 @@ func (s *sys) finishCallbacks() {
 }
 
 // realTime drives a collector that uses the real clock: refreshes, invalidations and data sets at
-// random instants over ~4 s; TLC checks acceptance against the lifetime with 350 ms of slack.
+// random instants over ~4 s; TLC checks acceptance against the lifetime with 600 ms of slack.
 func realTime(w *vt.Writer, r *rand.Rand) int {
 	c, err := coll.New("udp", collector.DecodingModeStrict, 1, nil)
 	if err != nil {
@@ -288,7 +288,7 @@ func realTime(w *vt.Writer, r *rand.Rand) int {
 	keys := map[string][2]int{"k1": {1, 256}, "k2": {1, 257}, "k3": {2, 256}}
 	names := []string{"k1", "k2", "k3"}
 	n := 0
-	for ms() < 4200 {
+	for ms() < 4600 {
 		n++
 		k := names[r.Intn(3)]
 		dt := keys[k]
